@@ -3,7 +3,7 @@ CONSTANTS
   Families <- AllFamilies
   CandClasses <- AllCands
   ModeCounts = {0, 2}
-  WidthOpts = {"none", "given"}
+  WidthOpts = {"none", "given", "zero"}
   LevelOpts = {"fixed", "autoadjust"}
 INVARIANT ClassKept
 INVARIANT ConstraintsFrozen
